@@ -53,7 +53,7 @@ check("C14", "opsim", "exploration",
   "Structural identity is judged on exported fields (the unexported GroupByInterval memo is not observable). Sharing of immutable values (*regexp.Regexp, *time.Location) is allowed because independence is checked behaviourally. Statements and histories are sampled.",
   "deterministic simulation: seeded multi-owner mutation histories with structural-fingerprint invariants after every step, exhaustive mutable-site enumeration per AST", "DESIGN.md §4 C14")
 check("C17", "schedsim", "exploration",
-  "Deterministic scheduling of real goroutines: 2-6 caller tasks run scripts of independent work (parse, print, quote, format, sanitize, lookup) and read-only operations on 1-2 shared ASTs; a pre-drawn plan decides which task runs and where it is preempted (library function entries, schema-service/valuer callbacks, statements touching sync/atomic or sync.Map, operation boundaries). The binary is built with -race; the scheduler's handoffs are hidden from ThreadSanitizer (norace functions, RaceDisable around channel operations), so the tasks are causally unordered for the detector while execution is serial and replayable. Oracles: no data race with a library frame; every result equals the result of the same call made alone on a fresh parse with the same services; no panic or budget overrun that the sequential twin does not show; in a third of the runs the reference results are taken before and after the concurrent phase and must agree. Tasks may share one immutable schema service, a further shared statement of any kind, and do in-place work on statements of their own. Lazily filled process-wide state is kept cold by running the concurrent phase before the reference phase and by salting literals; failures that need earlier operations in the same process are reported with their minimal prelude.",
+  "Deterministic scheduling of real goroutines: 2-6 caller tasks run scripts of independent work (parse — valid statements, salted literals, token soups and near-miss statements that fail at a node of the shared dispatch tree —, print, quote, format, sanitize, lookup) and read-only operations on 1-2 shared ASTs; a pre-drawn plan decides which task runs and where it is preempted (library function entries, schema-service/valuer callbacks, statements touching sync/atomic or sync.Map, operation boundaries). The binary is built with -race; the scheduler's handoffs are hidden from ThreadSanitizer (norace functions, RaceDisable around channel operations), so the tasks are causally unordered for the detector while execution is serial and replayable. Oracles: no data race with a library frame; every result equals the result of the same call made alone on a fresh parse with the same services; no panic or budget overrun that the sequential twin does not show; in a third of the runs the reference results are taken before and after the concurrent phase and must agree. Tasks may share one immutable schema service, a further shared statement of any kind, and do in-place work on statements of their own. Lazily filled process-wide state is kept cold by running the concurrent phase before the reference phase and by salting literals; failures that need earlier operations in the same process are reported with their minimal prelude.",
   "Yield granularity is function entry / callbacks / atomic statements / op boundaries; interleavings inside standard-library calls are not controlled. ThreadSanitizer keeps a bounded access history per word. Library-spawned goroutines or channel waits would only hit the watchdog (exit 2). GroupByInterval/GroupByOffset on shared ASTs and in-place rewrites are excluded as the property says.",
   "deterministic simulation: plan-driven cooperative scheduler over real goroutines with the Go race detector as oracle plus sequential-twin result equality", "DESIGN.md §3.3, §4 C17")
 check("C18", "clocksim", "exploration",
